@@ -11,7 +11,9 @@ oracle: rendered output of generated templates under static / selector / runtime
         must be Clean (no raw < > " ') — template text is metacharacter-free, every data string and
         literal carries metacharacters and a unique payload marker.
 """
+import os
 import re
+import sys
 
 from . import lib
 from . import esc_lang as L
@@ -266,6 +268,9 @@ def run(ctx):
     ctx.extra["filters_in_running_jinja2"] = len(FILTERS)
     ctx.extra["filter_row_cases"] = len(rows)
 
+    # ---------------- T: translator tie for the output path of the code generator
+    translator_tie(ctx)
+
     # ---------------- K-sel: select_autoescape
     sel_cases = []
     exts = ["html", "htm", "xml", "txt", "j2", "HTML", ".html", "tar.gz"]
@@ -428,6 +433,25 @@ def run(ctx):
             w = judge_output(out)
             if w:
                 ctx.reject({"kind": "region", "mode": shape["mode"], "templates": ts, "data": data}, w, sig)
+
+
+def translator_tie(ctx):
+    """regenerate the decision table of the output path from the current compiler.py / runtime.py and have
+    coqc prove facts_ok over it (Properties/C15gen.v turns that into the equations of the evaluator)"""
+    ctx.proof("C15gen")
+    gen_dir = os.path.join(lib.ROOT, "gen")
+    if gen_dir not in sys.path:
+        sys.path.insert(0, gen_dir)
+    import esc_translate
+    try:
+        vtext = esc_translate.emit(lib.SRC)
+    except esc_translate.Untranslatable as e:
+        ctx.obligations += 1
+        ctx.obligation_names.append("Gen_esc_codegen (regenerated, not translatable)")
+        ctx.broken.append(f"translator gen/esc_translate.py: the output path of the code generator left the translatable vocabulary: {e}")
+        return
+    ok, out = ctx.coq_obligation("Gen_esc_codegen", vtext, n_obligations=3)
+    ctx.extra["codegen_table"] = [ln.strip() for ln in vtext.splitlines() if ln.strip().startswith("f_")][:14]
 
 
 def judge_expr(e, wsrc, out):
